@@ -1,4 +1,6 @@
 ''' C01 - TCPCL delivers every queued bundle exactly once, intact and in order. '''
+from hypothesis import strategies as st
+
 from vlib import boot
 from vlib.engine import Outcome
 
@@ -35,7 +37,8 @@ def budgets(tier):
 
 def strategy(tier):
     from vlib import tcpcl_machine as tm
-    return tm.cases(max_ops=14 if tier == 'quick' else 24)
+    free = tm.cases(max_ops=14 if tier == 'quick' else 24, keepalive=True)
+    return st.one_of(free, free, free, tm.timer_midmessage_cases())
 
 
 def pinned_cases():
